@@ -21,3 +21,9 @@ func redconCommand(args [][]byte) redcon.Command { return redcon.Command{Args: a
 func vpRtConfig(parts uint64, replicas int, ring vpRing) *config.Config {
 	return &config.Config{PartitionCount: parts, ReplicaCount: replicas, MemberCountQuorum: 1, Hasher: ring, LoadFactor: 4}
 }
+
+type discoveryClusterEvent = discovery.ClusterEvent
+
+func discoveryVerifSet(d *discovery.Discovery, nodes []*memberlist.Node) {
+	d.VerifMemberlist().VerifSet(nodes)
+}
